@@ -116,12 +116,19 @@ def run(chk):
             created, err = export(raw, os.path.join(work, "t"))
             recs.append(dict(created=created, err=err or ""))
             meta.append(batch)
+        # elements that only look like '..' / '.' (white space around them): harmless names as long as nobody normalises them
+        for ws in (" ", "\t", "\n", "  "):
+            batch = [(["r", ".." + ws, ".." + ws, ".." + ws, "esc"], ["m"]), ([".." + ws, "x"], ["m"]), (["s", ws + ".."], ["m"]), (["." + ws, "t"], ["m"])]
+            raw = make_dex(batch)
+            created, err = export(raw, os.path.join(work, "t"))
+            recs.append(dict(created=created, err=err or ""))
+            meta.append(batch)
         # random names with other path tricks
         for _ in range(10 if quick else 200):
             batch = []
             for _ in range(8):
                 k = rnd.randrange(1, 5)
-                cls = [rnd.choice(["a", "b", "..", ".", "", "...", " ", "~", "c d", "é", LONG]) for _ in range(k)]
+                cls = [rnd.choice(["a", "b", "..", ".", "", "...", " ", "~", "c d", "é", LONG, ".. ", "..\t", " ..", ". ", "..\n"]) for _ in range(k)]
                 meth = [rnd.choice(["m", "..", "<init>", "x y", "."]) for _ in range(rnd.randrange(1, 3))]
                 if "/".join(cls):
                     batch.append((cls, meth))
